@@ -172,6 +172,8 @@ def canon_exc(e):
         return f"ws{int(e.code)}"
     if isinstance(e, zlib.error):
         return "zlib"
+    if type(e).__name__ == "EofStream":
+        return "eof"
     return f"E_OTHER({type(e).__name__})"
 
 
@@ -215,17 +217,26 @@ def utf8_ok(b):
         return False
 
 
+class TooManyMembers(Exception):
+    pass
+
+
 class RefInflater:
     """independent use of zlib: raw deflate, one context for the whole connection; a BFINAL
     block ends a stream and the next bytes start a new one"""
 
     def __init__(self):
         self.d = zlib.decompressobj(wbits=-15)
+        try:
+            from aiohttp.compression_utils import MAX_DECOMPRESS_MEMBERS as cap_members
+        except Exception:
+            cap_members = 1024
+        self.cap_members = cap_members
 
     def inflate(self, data, cap):
         out = bytearray()
         data = bytes(data)
-        members = 0
+        members = 1
         while True:
             out += self.d.decompress(data, max(cap + 1 - len(out), 1) if cap else 0)
             if cap and len(out) > cap:
@@ -234,8 +245,8 @@ class RefInflater:
                 data = self.d.unused_data
                 self.d = zlib.decompressobj(wbits=-15)
                 members += 1
-                if members > 4096:
-                    raise zlib.error("too many members")
+                if members > self.cap_members:
+                    raise TooManyMembers()     # the documented cap on concatenated deflate members per message
                 continue
             return bytes(out)
 
@@ -257,6 +268,8 @@ def py_spec(max_msg, compress, decode_text, data, allowed=None):
         if cz:
             try:
                 payload = z.inflate(payload + TRAIL, max_msg)
+            except TooManyMembers:
+                return "ws1009", "too-big"
             except zlib.error:
                 return "zlib", "inflate"
             if max_msg and len(payload) > max_msg:
